@@ -25,7 +25,10 @@ for d in sorted(glob.glob(os.path.join(V, "seeded", "*"))):
     if len(summ) > 230:
         summ = summ[:227] + "..."
     others = sorted({k.split("@")[1] for k in r if "@" in k and r[k].get("violation_lines", 0) > 0})
-    rows.append(f"| {os.path.basename(d)} | {m['property']} | {', '.join(files)} | {summ} | {verdict('quick') + ((" by its own check; caught by the check of " + ", ".join(others)) if others and verdict('quick') == "MISSED" else "")} | {verdict('thorough') if 'thorough' in r else '-'} | {m.get('note', '')} |")
+    qv = verdict('quick')
+    if others and qv == "MISSED":
+        qv = "MISSED by its own check; caught by the check of " + ", ".join(others)
+    rows.append(f"| {os.path.basename(d)} | {m['property']} | {', '.join(files)} | {summ} | {qv} | {verdict('thorough') if 'thorough' in r else '-'} | {m.get('note', '')} |")
 def cls(row):
     q = row.split("|")[5].strip()
     return ("caught" if q.startswith("caught") else "cross" if "caught by the check of" in q else "missed" if q.startswith("MISSED")
